@@ -123,4 +123,71 @@ theorem player_pc_is_nextPc (cfg : Cfg) (hfix : cfg.fixed = true) (s s' : State)
     simp [setP, hi, loopHead]
     cases halting <;> cases go <;> cases fail <;> cases t <;> rcases todo with _ | ⟨c, rest⟩ <;> rfl
 
+/-- **the successor structure of `stepMain` inside a call is the skeleton's**: at every program
+    counter that is a yield point of `play` / `close` / `pause` / `play` / `stop` (`mpcMethod`), a step
+    of the control thread goes to the yield point the control-flow interpreter reaches in the
+    REGENERATED method (with `AudioThread.__init__` / `thread.stop()` inlined) under the guard values
+    of that state — or the interpreter says the method is over, exactly at the program counters where
+    the model returns to the script (`mpcReturns`); and the call stays in its method until then. -/
+theorem main_pc_is_nextY (cfg : Cfg) (hfix : cfg.fixed = true) (s s' : State) (m : String) (y : Y)
+    (hm : mpcMethod s.mpc = some m) (hy : mpcY true s.mpc = some y) (hs : stepMain cfg s = some s') :
+    nextY skeleton m (mainGv cfg s) y = some (if mpcReturns s.mpc then none else mpcY true s'.mpc) ∧
+    (mpcReturns s.mpc = false → mpcMethod s'.mpc = some m) := by
+  rcases s with ⟨mpc, script, players, threads, mlock, hlock, finished, terminated, perr, log⟩
+  rcases cfg with ⟨w, f, fl⟩
+  simp only at hfix
+  subst hfix
+  unfold stepMain at hs
+  simp only [mainGv]
+  generalize players.any streamOpen = so at hs ⊢
+  generalize threads.isEmpty = te
+  cases mpc <;> simp only [mpcMethod, Option.some.injEq, reduceCtorEq] at hm <;> subst hm <;>
+    simp only [mpcY, Option.some.injEq] at hy <;> subst hy <;> simp only [] at hs
+  case pAcq audio cs =>
+    cases mlock <;> simp at hs
+    cases finished <;> simp at hs <;> subst hs <;> cases w <;> cases so <;> cases te <;> exact ⟨rfl, fun _ => rfl⟩
+  case kHAcq =>
+    cases hlock <;> simp at hs
+    cases finished <;> simp at hs <;> subst hs <;> cases w <;> cases so <;> cases te <;> exact ⟨rfl, fun _ => rfl⟩
+  case kMAcq =>
+    cases mlock <;> simp at hs
+    subst hs; cases finished <;> cases w <;> cases so <;> cases te <;> exact ⟨rfl, fun _ => rfl⟩
+  case kMRel found =>
+    rcases found with _ | j <;> simp only [] at hs
+    · cases so <;> simp at hs <;> subst hs <;> cases finished <;> cases w <;> cases te <;> exact ⟨rfl, fun _ => rfl⟩
+    · cases hs; cases finished <;> cases w <;> cases so <;> cases te <;> exact ⟨rfl, fun _ => rfl⟩
+  case kJoin j =>
+    split at hs
+    case isFalse => cases hs
+    cases hs; cases finished <;> cases w <;> cases so <;> cases te <;> exact ⟨rfl, fun _ => rfl⟩
+  case cAcq k j =>
+    split at hs
+    · split at hs
+      · cases hs
+      · cases hs; cases k <;> cases finished <;> cases w <;> cases so <;> cases te <;> exact ⟨rfl, fun _ => rfl⟩
+    · cases hs
+  case kSAcq j =>
+    split at hs
+    · split at hs
+      · cases hs
+      · cases hs; cases finished <;> cases w <;> cases so <;> cases te <;> exact ⟨rfl, fun _ => rfl⟩
+    · cases hs
+  case cEvt k j =>
+    split at hs
+    · cases hs; cases k <;> cases finished <;> cases w <;> cases so <;> cases te <;> exact ⟨rfl, fun _ => rfl⟩
+    · cases hs
+  case cRel k j =>
+    split at hs
+    · cases hs; cases k <;> cases finished <;> cases w <;> cases so <;> cases te <;> exact ⟨rfl, fun h => by cases h⟩
+    · cases hs
+  case pRaiseRel => cases hs; cases finished <;> cases w <;> cases so <;> cases te <;> exact ⟨rfl, fun h => by cases h⟩
+  case pRel => cases hs; cases finished <;> cases w <;> cases so <;> cases te <;> exact ⟨rfl, fun h => by cases h⟩
+  case kAssertRel => cases hs; cases finished <;> cases w <;> cases so <;> cases te <;> exact ⟨rfl, fun h => by cases h⟩
+  case kHRel r => cases hs; cases finished <;> cases w <;> cases so <;> cases te <;> exact ⟨rfl, fun h => by cases h⟩
+  case kTerm => cases hs; cases finished <;> cases w <;> cases so <;> cases te <;> exact ⟨rfl, fun _ => rfl⟩
+  all_goals
+    split at hs
+    · cases hs; cases finished <;> cases w <;> cases so <;> cases te <;> exact ⟨rfl, fun _ => rfl⟩
+    · cases hs
+
 end ALV.C17
